@@ -200,3 +200,50 @@ def none_propagation(ctx: Ctx, chk, rule: str) -> None:
                         chk.ok(rule, f"{k}@{V}", "parking branch definitely not taken when the buffer argument is None", ctx.loc(hf, st), sample=V == "1.4")
                     else:
                         chk.refute(rule, k, f"{hf.qualname} can park in {attr} although the buffer argument is None (message_buffer=False)", ctx.loc(hf, st), version=V)
+
+
+COPY_FORMS = ("Message(**vars(In))", "copy.copy(In)", "copy(In)", "copy.deepcopy(In)", "deepcopy(In)", "replace(In)", "dataclasses.replace(In)")
+
+
+def is_message_or_copy(canon_value: str) -> bool:
+    return canon_value == "In" or canon_value in COPY_FORMS
+
+
+def entry_names(ctx: Ctx, f: FuncInfo, attr: str) -> dict[str, ast.expr]:
+    """Locals bound to an element of <x>.<attr>: name -> key expression (None when bound by iteration)."""
+    out: dict = {}
+    for n in ctx.own_nodes(f):
+        if isinstance(n, ast.Assign) and len(n.targets) == 1 and isinstance(n.targets[0], ast.Name):
+            v = n.value
+            if isinstance(v, ast.Call) and isinstance(v.func, ast.Attribute) and v.func.attr in ("get", "pop") and buffer_attr(v.func.value) == attr and v.args:
+                out[n.targets[0].id] = v.args[0]
+            elif isinstance(v, ast.Subscript) and buffer_attr(v.value) == attr:
+                out[n.targets[0].id] = v.slice
+        elif isinstance(n, ast.NamedExpr) and isinstance(n.target, ast.Name):
+            v = n.value
+            if isinstance(v, ast.Call) and isinstance(v.func, ast.Attribute) and v.func.attr in ("get",) and buffer_attr(v.func.value) == attr and v.args:
+                out[n.target.id] = v.args[0]
+        elif isinstance(n, (ast.For, ast.comprehension)):
+            it = n.iter
+            if isinstance(it, ast.Call) and isinstance(it.func, ast.Attribute) and it.func.attr in ("values", "items") and buffer_attr(it.func.value) == attr:
+                t = n.target
+                if it.func.attr == "values" and isinstance(t, ast.Name):
+                    out[t.id] = None
+                elif it.func.attr == "items" and isinstance(t, ast.Tuple) and len(t.elts) == 2 and isinstance(t.elts[1], ast.Name):
+                    out[t.elts[1].id] = None
+    return out
+
+
+def inplace_updates(ctx: Ctx, f: FuncInfo, attr: str) -> list[tuple[ast.stmt, str, str]]:
+    """Attribute stores on an element of the buffer: (statement, entry name, attribute)."""
+    names = entry_names(ctx, f, attr)
+    out = []
+    for n in ctx.own_nodes(f):
+        if isinstance(n, (ast.Assign, ast.AugAssign, ast.AnnAssign)):
+            targets = n.targets if isinstance(n, ast.Assign) else [n.target]
+            for t in targets:
+                if isinstance(t, ast.Attribute) and isinstance(t.value, ast.Name) and t.value.id in names:
+                    out.append((n, t.value.id, t.attr))
+                elif isinstance(t, ast.Attribute) and isinstance(t.value, ast.Subscript) and buffer_attr(t.value.value) == attr:
+                    out.append((n, norm(t.value), t.attr))
+    return out
